@@ -90,14 +90,6 @@ fn c15_seq_join_n1_w1() {
 #[kani::unwind(7)]
 #[kani::solver(kissat)]
 #[kani::stub(crate::telemetry::memory::periodic_memory_report, noop_report)]
-fn c15_seq_join_n2_w1() {
-    drive::<2>(1, 4, [Coin(0), Coin(1)]);
-}
-
-#[kani::proof]
-#[kani::unwind(7)]
-#[kani::solver(kissat)]
-#[kani::stub(crate::telemetry::memory::periodic_memory_report, noop_report)]
 fn c15_seq_join_n2_w2() {
     drive::<2>(2, 4, [Coin(0), Coin(1)]);
 }
